@@ -389,6 +389,8 @@ func (w *World) genHistory(p HistParams) *History {
 		w.scenarioStaleKey(h, deliver)
 	case "badfork":
 		w.scenarioBadFork(h, deliver)
+	case "h440":
+		w.scenarioH440(h, deliver)
 	}
 	if len(h.Ops) > 0 && h.Ops[len(h.Ops)-1].Dump == nil {
 		h.Ops[len(h.Ops)-1].Dump = w.dump(h.NUT)
@@ -757,6 +759,52 @@ func (w *World) scenarioBadFork(h *History, deliver func(*TNode) *Op) {
 		op.Dump = w.dump(h.NUT)
 	}
 	h.Stats["scenario-badfork"]++
+}
+
+// scenarioH440: mainnet block 440 repeats a side block and PrevalidateBlock exempts that height from the duplicate
+// side block checks. The chain is grown to height 439 with empty blocks; a block at height 440 (and, for comparison,
+// one at 441) that lists the same side block twice - counting its work twice - must be refused wherever height 440 is
+// not pinned by a checkpoint.
+func (w *World) scenarioH440(h *History, deliver func(*TNode) *Op) {
+	cur := w.nodeOfTop(h.NUT)
+	if cur == nil || cur.Snap == nil {
+		return
+	}
+	mk := func(parent *TNode, wi int, spec BlockSpec) *TNode {
+		spec.TsDelta, spec.Recipient = 15000, w.wallets[wi%len(w.wallets)].Addr
+		n := w.build(parent, spec)
+		w.admit(n)
+		return n
+	}
+	for cur.Block.Height < 439 {
+		n := mk(cur, int(cur.Block.Height), BlockSpec{})
+		if !n.Valid {
+			return
+		}
+		deliver(n)
+		cur = n
+	}
+	for _, target := range []uint64{440, 441} {
+		if cur.Parent == nil || cur.Parent.Snap == nil {
+			return
+		}
+		sib := w.build(cur.Parent, BlockSpec{TsDelta: 16000, Recipient: w.wallets[1].Addr})
+		w.admit(sib)
+		deliver(sib)
+		twice := mk(cur, 2, BlockSpec{Sides: []*TNode{sib}, Corrupt: "side-dup"})
+		op := deliver(twice)
+		op.Dump = w.dump(h.NUT)
+		h.Stats[fmt.Sprintf("h440:side-twice-at-%d", target)]++
+		if target == 440 {
+			nxt := mk(cur, 3, BlockSpec{})
+			if !nxt.Valid {
+				return
+			}
+			deliver(nxt)
+			cur = nxt
+		}
+	}
+	h.Stats["scenario-h440"]++
 }
 
 // scenarioCorruptSweep: every single-rule corruption of an otherwise valid block, once each, on a live chain state
